@@ -31,6 +31,7 @@ PROP = {
         {"name": "shell", "quick": 1200000, "thorough": 12000000, "maxlen": 128},
         {"name": "creader", "quick": 600000, "thorough": 6000000, "maxlen": 160},
         {"name": "path", "quick": 1200000, "thorough": 12000000, "maxlen": 96},
+        {"name": "text_long", "quick": 600000, "thorough": 6000000, "maxlen": 256},
     ],
     "fuzz": [
         {"name": "cmdargs", "secs": 40, "maxlen": 128},
